@@ -41,31 +41,41 @@ def c01 (op : String) (args : List Sexp) : Verdict :=
         match c.res with
         | .atom "ok" =>
           if c.recs.length != c.vals.length then .oracle s!"{c.vals.length} records written, {c.recs.length} delivered" else
-          let bad := (c.vals.zip c.recs).zipIdx.findSome? fun ((g, r), i) =>
+          -- per record: (oracle verdict, correspondence verdict)
+          let judged : List (Option String × Option String) := (c.vals.zip c.recs).zipIdx.map fun ((g, r), i) =>
             -- oracle: the documented normalisations applied to the value written (independent of the codec model)
             let want := normSpec 64 c.ty false g
             match parseGoVal r with
-            | none => some s!"record {i}: unparsable implementation value"
+            | none => (some s!"record {i}: unparsable implementation value", none)
             | some ir =>
-              if renderGoVal (normSpec 64 c.ty false ir) != renderGoVal want then
-                let got := renderGoVal (normSpec 64 c.ty false ir)
-                let masks : List (Nat × String) :=
-                  [(1, "[D27 ptr-to-invalid-null only] "), (2, "[D30 ptr-ptr-inner-nil only] "),
-                   (4, "[D32 zero-instant-nonutc only] "), (3, "[D27+D30 only] "), (5, "[D27+D32 only] "),
-                   (6, "[D30+D32 only] "), (7, "[D27+D30+D32 only] ")]
-                let tag := (masks.find? fun m => got == renderGoVal (normSpecD m.1 64 c.ty false g)).elim "" (·.2)
-                some s!"{tag}record {i} read back as {renderGoVal (normSpec 64 c.ty false ir)} (normalised), written value normalises to {renderGoVal want}"
-              else
-                -- correspondence: the model's round trip gives what the implementation gave
+              let got := renderGoVal (normSpec 64 c.ty false ir)
+              let orc : Option String :=
+                if got != renderGoVal want then
+                  let masks : List (Nat × String) :=
+                    [(1, "[D27 ptr-to-invalid-null only] "), (2, "[D30 ptr-ptr-inner-nil only] "),
+                     (4, "[D32 zero-instant-nonutc only] "), (3, "[D27+D30 only] "), (5, "[D27+D32 only] "),
+                     (6, "[D30+D32 only] "), (7, "[D27+D30+D32 only] ")]
+                  let tag := (masks.find? fun m => got == renderGoVal (normSpecD m.1 64 c.ty false g)).elim "" (·.2)
+                  some s!"{tag}record {i} read back as {got} (normalised), written value normalises to {renderGoVal want}"
+                else none
+              -- correspondence: the model's round trip gives what the implementation gave
+              let cor : Option String :=
                 match toAvro env (omits env) bigFuel codec g with
                 | none => none
                 | some v =>
                   match ofAvro env bigFuel codec v (zeroVal c.ty) with
-                  | .ok ge => if renderGoVal ge == renderGoVal ir then none else some s!"DIFF record {i}: model round trip gives {renderGoVal ge}, implementation {renderGoVal ir}"
-                  | _ => some s!"DIFF record {i}: model cannot read back its own datum"
-          match bad with
-          | some e => if e.startsWith "DIFF" then .diff e else .oracle e
-          | none => .ok s!"e2e/{c.codec}/recs{min c.vals.length 4}"
+                  | .ok ge => if renderGoVal ge == renderGoVal ir then none else some s!"record {i}: model round trip gives {renderGoVal ge}, implementation {renderGoVal ir}"
+                  | _ => some s!"record {i}: model cannot read back its own datum"
+              (orc, cor)
+          -- a mismatch the recorded deviations do not explain comes first, then a correspondence break, then a recorded deviation
+          let untagged := judged.findSome? fun (o, _) => match o with | some e => if e.startsWith "[" then none else some e | none => none
+          let tagged := judged.findSome? fun (o, _) => match o with | some e => if e.startsWith "[" then some e else none | none => none
+          let cor := judged.findSome? (·.2)
+          match untagged, cor, tagged with
+          | some e, _, _ => .oracle e
+          | none, some d, _ => .diff d
+          | none, none, some t => .oracle t
+          | none, none, none => .ok s!"e2e/{c.codec}/recs{min c.vals.length 4}"
         | other => .oracle s!"reading back a file the library wrote failed: {other}"
     | .err => .diff "model: schema generation error"
     | .overflow => .bad "model schema generation out of fuel"
